@@ -80,6 +80,24 @@ def handoffAtomic (a b : Path) : Bool :=
   let ts : List Thread := [{ rest := a }, { rest := b }]
   atomicRuns (totalLen ts) (State.init ts) none
 
+/-! ## Lists handed out by the store are snapshots
+
+    The lock model treats `Store.DBs` / `Store.FindDB` as "lock `Store.mu`, read, unlock" and everything the
+    caller then does with the result as *not* touching `Store.mu`-protected memory: the consumers (compaction,
+    retention and heartbeat monitors, the control socket's list/status handlers) walk the list after the lock is
+    released. That is only sound if the list is a copy. -/
+
+/-- what `Store.DBs` must return for the model's "consumers iterate a snapshot" assumption -/
+def storeDBsSnapshotExpr : String := "slices.Clone(s.dbs)"
+
+/-- `UnregisterDB` deletes in place (`slices.Delete`: shift the tail, zero the freed slot). A consumer that
+    holds the list `view` taken before sees `after` when the list aliases the store's array, `view` when it is a copy. -/
+def deleteInPlace (l : List (Option Nat)) (i : Nat) : List (Option Nat) := l.eraseIdx i ++ [none]
+
+/-- what a consumer reads from a list of length `n` taken before the delete -/
+def consumerSees (aliased : Bool) (view : List (Option Nat)) (i : Nat) : List (Option Nat) :=
+  if aliased then (deleteInPlace view i).take view.length else view
+
 /-! ## Double-checked registration (store.go: RegisterDB) -/
 
 /-- statement shape of `Store.RegisterDB` that the step relation below transcribes -/
